@@ -40,17 +40,17 @@ CLAIMED = {
             'text': 'file metadata and level shape: hull of several files (O7.1, known finding D4), binary search on well-formed levels (O1.3), file comparator is a total order (O10.3), version edits keep levels >= 1 sorted and disjoint and equal base - deleted + added (O10.5), manifest snapshot preserves (level, number, size, smallest..largest) (O1.7)',
             'note': B_NOTE, 'technique': TECH},
     'C02': {'engine': 'engine-b-mirse', 'design_ref': 'DESIGN.md section 4 C02',
-            'text': 'log level and orchestration steps: for every writer-producible log of <= 3 (thorough: 4) fragments cut at ANY byte the reader returns exactly the complete records before the cut, then end-of-file (O12.3 = O2.1); a flush drops the immutable memtable / removes obsolete files only after table write and manifest edit succeeded (O2.4); open replays exactly the WALs >= the manifest WAL number in ascending order, treats only the newest as reusable, restores the maximal sequence (O2.5b); one WAL contributes every batch and its true last sequence (O2.5a)',
-            'note': B_NOTE + '; recovery orchestration (DB::recover*), manifest/CURRENT switching and flush ordering are not covered by this check', 'technique': TECH},
+            'text': 'log level and orchestration steps: for every writer-producible log of <= 3 (thorough: 4) fragments cut at ANY byte the reader returns exactly the complete records before the cut, then end-of-file (O12.3 = O2.1); a flush drops the immutable memtable / removes obsolete files only after table write and manifest edit succeeded (O2.4); open replays exactly the WALs >= the manifest WAL number in ascending order, treats only the newest as reusable, restores the maximal sequence (O2.5b); one WAL contributes every batch and its true last sequence (O2.5a); VersionSet::recover restores the last recorded WAL number / sequence / file counter from a manifest of <= 2 (thorough: 3) records and gives a manifest that is not reused a number different from the one CURRENT names (O2.6); a log writer reopened on an existing file continues at the block position where the file ends (O12.5)',
+            'note': B_NOTE + '; crash points are not enumerated: the obligations are the per-step facts the crash argument rests on; CURRENT switching (set_current_file) and table builds are not encoded', 'technique': TECH},
     'C12': {'engine': 'engine-b-mirse', 'design_ref': 'DESIGN.md section 4 C12',
-            'text': 'writer fragmentation geometry for every start offset and record length <= 3 blocks (O12.1); reader reassembly over abstract block-accurate fragment streams: intact or cut at any byte (O12.3), abandoned record prefix + reopened writer (O12.4)',
+            'text': 'writer fragmentation geometry for every start offset and record length <= 3 blocks (O12.1); a reopened writer starts at file size mod 32768 for every 64-bit size (O12.5); reader reassembly over abstract block-accurate fragment streams: intact or cut at any byte (O12.3), abandoned record prefix + reopened writer (O12.4)',
             'note': B_NOTE + '; byte contents (payload fidelity, CRC) are not represented in Engine B', 'technique': TECH},
     'C15': {'engine': 'engine-b-mirse', 'design_ref': 'DESIGN.md section 4 C15',
             'text': 'log reader under one fragment with a failing checksum (any position, symbolic lengths): exactly the damaged record is dropped, every other record is returned, alignment is kept (O15.5); a seek into an unreadable table block reports an error every time (O4.3); Kani: one-record log with one altered byte never yields a foreign record (O15.2), parsers never panic on arbitrary bytes (O15.3), crc masking is a bijection (O15.1)',
             'note': B_NOTE + '; corruption is modelled as "BlockRecord::try_from fails for that fragment" with an intact length field; table files and manifests are not covered', 'technique': TECH},
     'C16': {'engine': 'engine-b-mirse', 'design_ref': 'DESIGN.md section 4 C16',
-            'text': 'log level and recovery steps: a torn tail is end-of-file and costs only the torn record (O12.3 with the cut inside the last fragment); open restores the maximal sequence over all replayed WALs even if the newest is empty or torn, and reuses only the newest WAL (O2.5b); records appended after a torn tail (O16.2) - known finding D1c',
-            'note': B_NOTE + '; DB::recover_wal_records and manifest reuse are not encoded', 'technique': TECH},
+            'text': 'log level and recovery steps: a torn tail is end-of-file and costs only the torn record (O12.3 with the cut inside the last fragment); open restores the maximal sequence over all replayed WALs even if the newest is empty or torn, and reuses only the newest WAL (O2.5b); records appended after a torn tail (O16.2) - known finding D1c; a reopened writer continues at the block position where the file ends (O12.5)',
+            'note': B_NOTE + '; manifest reuse after a torn manifest tail is not encoded', 'technique': TECH},
     'C03': {'engine': 'engine-b-mirse', 'design_ref': 'DESIGN.md section 4 C03',
             'text': 'mechanisms behind frozen snapshots: Table::get honours the sequence bound and keeps older files searchable (O1.6); a table compaction is bounded by the OLDEST live snapshot (O3.2a); the merge keep/drop rule preserves what every snapshot >= that bound sees (O3.2b); the live-file set covers every level of every live version (O3.3); the database iterator shows exactly the pairs visible at its sequence number (O4.2)',
             'note': B_NOTE + '; pinning of files by live versions (obsolete-file deletion) and reader/compaction interleavings are not covered', 'technique': TECH},
